@@ -6,9 +6,10 @@
    The byte-level predicates (qcow2_safe, luks_safe, gpt_safe, mbr_table_ok, vhd_ok, ...) are in Model/C02.v,
    written from the formats' layouts with literal offsets. *)
 Require Import OV.Base.Bytes OV.Base.Py OV.Base.Insp_Struct OV.Gen.Insp_Consts OV.Model.Insp_Engine.
-Require Import OV.Model.Insp_Vmdk OV.Model.Insp_All OV.Model.C02 OV.Model.C02_Cli OV.Gen.C02_Cli.
+Require Import OV.Base.C02_Py OV.Model.Insp_Qcow2 OV.Model.Insp_Gpt OV.Model.Insp_Luks OV.Model.Insp_Vhdx OV.Model.C01_Vhdx OV.Model.C01_Vmdk.
+Require Import OV.Model.Insp_Vmdk OV.Model.Insp_All OV.Model.C02 OV.Model.C02_Cli OV.Gen.C02_Cli OV.Gen.C02_Checks.
 Require Import OV.Proofs.C02_Engine OV.Proofs.C02_Static OV.Proofs.C02_Gpt OV.Proofs.C02_Qcow OV.Proofs.C02_Spec
-               OV.Proofs.C02_Checks OV.Proofs.C02_Vmdk OV.Proofs.C02_VmdkRun OV.Proofs.C02_VmdkSpec OV.Proofs.C02_VmdkEx OV.Proofs.C02_Cli OV.Proofs.C02_F1.
+               OV.Proofs.C02_Checks OV.Proofs.C02_Vmdk OV.Proofs.C02_VmdkRun OV.Proofs.C02_VmdkSpec OV.Proofs.C02_VmdkEx OV.Proofs.C02_Cli OV.Proofs.C02_F1 OV.Proofs.C02_Vhdx OV.Proofs.C02_VmdkC01 OV.Proofs.C02_Equiv.
 Open Scope N_scope.
 
 (* ---- 1. the gate: ANY inspector object of ANY format (hence every reachable state) ---- *)
@@ -184,6 +185,68 @@ Theorem C02_vmdk_sparse_verdict_is_predicate : forall cs v,
   vmdk_sparse_safeb (concat cs) = Some v -> (accepted (Insp_All.run F_vmdk cs) = true <-> v = true).
 Proof. exact vmdk_sparse_safeb_correct. Qed.
 Print Assumptions C02_vmdk_sparse_verdict_is_predicate.
+
+(* VHDX on the BYTES (through C01's refinement theorem): outside the zones F2 / F4, for all chunkings,
+   safety_check() passes exactly when the whole-buffer specification says complete and matching *)
+Theorem C02_vhdx_pass_iff : forall b cs,
+  zone_vhdx_backptr b = false -> zone_vhdx_metasig b = false -> concat cs = b ->
+  (safety (fst (Insp_All.run F_vhdx cs)) = Pass <->
+   v_complete (vhdx_spec b) = true /\ v_match (vhdx_spec b) = Ok true).
+Proof. exact vhdx_pass_iff. Qed.
+Print Assumptions C02_vhdx_pass_iff.
+
+Theorem C02_vhdx_short_refused : forall b cs,
+  concat cs = b -> flen b <? VX_HDR_END = true -> safety (fst (Insp_All.run F_vhdx cs)) = Refused.
+Proof. exact vhdx_short_refused. Qed.
+Print Assumptions C02_vhdx_short_refused.
+
+(* finding F7 in those terms: identifier present, region table invalid => for EVERY chunking eat_chunk raises and
+   the frozen inspector passes safety_check() all the same *)
+Theorem C02_vhdx_frozen_inspector_passes : forall b cs e,
+  concat cs = b -> flen b <? VX_HDR_END = false ->
+  prefixb VHDX_MAGIC (nslice 0 VX_IDENT_LEN b) = true ->
+  vx_region_table (nslice VX_HDR_OFF VX_HDR_LEN b) = Exn e ->
+  snd (Insp_All.run F_vhdx cs) = Some e /\ safety (fst (Insp_All.run F_vhdx cs)) = Pass.
+Proof. exact vhdx_frozen_inspector_passes. Qed.
+Print Assumptions C02_vhdx_frozen_inspector_passes.
+
+(* VMDK streams of at least 64 bytes WITHOUT a valid sparse header, outside the text zone F1 (C01's vmdk_refines_spec) *)
+Theorem C02_vmdk_invalid_header_never_passes : forall b cs,
+  concat cs = b -> zone_vmdk_text b = false -> VMDK_MIN_SPARSE_HEADER <= blen b ->
+  negb (beq (vh_sig b) VMDK_MAGIC_PP) || negb (ver_ok (vh_ver b)) = true ->
+  snd (Insp_All.run F_vmdk cs) = Some ImageFormatError /\ safety (fst (Insp_All.run F_vmdk cs)) <> Pass.
+Proof. exact vmdk_invalid_header_never_passes. Qed.
+Print Assumptions C02_vmdk_invalid_header_never_passes.
+
+Theorem C02_vmdk_safety_is_spec : forall b cs,
+  concat cs = b -> zone_vmdk_text b = false -> zone_vmdk_shortfoot b = false ->
+  safety (fst (Insp_All.run F_vmdk cs)) = v_safety (vmdk_spec b).
+Proof. exact vmdk_safety_is_spec. Qed.
+Print Assumptions C02_vmdk_safety_is_spec.
+
+(* ---- the hand-written check functions ARE the source: statement-level translations (Gen/C02_Checks.v,
+   regenerated on every run) of every check_* function, SafetyCheck.__call__ and FileInspector.safety_check
+   compute what the model computes ---- *)
+Theorem C02_checks_are_the_source :
+  (forall (s : ist qx) r, rget R_header (i_regs s) = Some r ->
+     gen_qcow_check_backing_file (r_data r) = qcow_check_backing_file s /\
+     gen_qcow_check_data_file (r_data r) = qcow_check_data_file s /\
+     gen_qcow_check_unknown_features (r_data r) (option_map (fun h => Z.of_N (q_version h)) (i_ext s)) = qcow_check_unknown_features s) /\
+  (forall (s : ist unit) r, rget R_mbr (i_regs s) = Some r -> gen_gpt_check_mbr_partitions (r_data r) = gpt_check_mbr_partitions s) /\
+  (forall (s : ist unit) r, rget R_header (i_regs s) = Some r -> all_bytes (r_data r) = true ->
+     gen_luks_check_version (r_data r) = luks_check_version s) /\
+  (forall (s : ist vx) h f, rget R_header (i_regs s) = Some h -> rget R_footer (i_regs s) = Some f ->
+     gen_vmdk_check_footer (r_data h) (r_data f) = vmdk_check_footer s) /\
+  (forall s : ist vx, gen_vmdk_check_descriptor (v_desc_text (i_ext s)) (v_vmdktype (i_ext s)) = vmdk_check_descriptor s) /\
+  (forall target, gen_check_call target = call_check target) /\
+  (forall (X : Type) (F : fmt X) (s : ist X) fm, f_match F s = Ok fm ->
+     gen_safety_check (Insp_Engine.complete s) fm (map (fun c => (cname_str c, f_check F c s)) (i_checks s)) = sc_of (safety_check F s)).
+Proof.
+  exact (conj (fun s r H => conj (qcow_check_backing_file_equiv s r H) (conj (qcow_check_data_file_equiv s r H) (qcow_check_unknown_features_equiv s r H)))
+        (conj gpt_check_mbr_partitions_equiv (conj luks_check_version_equiv (conj vmdk_check_footer_equiv
+        (conj vmdk_check_descriptor_equiv (conj check_call_equiv (@safety_check_equiv))))))).
+Qed.
+Print Assumptions C02_checks_are_the_source.
 
 (* ---- 3. clean images are accepted (every format but QED) ---- *)
 Theorem C02_clean_image_accepted : forall cs : list bytes,
